@@ -22,6 +22,9 @@ type MyFloat32 float32
 type MyFloat64 float64
 type MyString string
 
+// Blob is a *named* byte slice: not an entry of scalarArgParsers, so the builder treats it as a list of uint8.
+type Blob []byte
+
 type Color int32
 type Mode string
 type Level uint8
@@ -82,6 +85,13 @@ type Opts struct {
 	H Inner      `graphql:"h,optional"`
 }
 
+// Tree is a self-referencing input object (the builder's typeCache closes the cycle).
+type Tree struct {
+	V    int32  `graphql:"v"`
+	Kids []Tree `graphql:"kids,optional"`
+	Next *Tree  `graphql:"next"`
+}
+
 type enumInfo struct {
 	rt    reflect.Type
 	names []string      // sorted
@@ -119,18 +129,18 @@ var scalarTypes = map[string]reflect.Type{
 	"MyInt64": reflect.TypeOf(MyInt64(0)), "MyUint16": reflect.TypeOf(MyUint16(0)), "MyUint64": reflect.TypeOf(MyUint64(0)),
 	"MyFloat32": reflect.TypeOf(MyFloat32(0)), "MyFloat64": reflect.TypeOf(MyFloat64(0)), "MyString": reflect.TypeOf(MyString("")),
 	"Color": reflect.TypeOf(Color(0)), "Mode": reflect.TypeOf(Mode("")), "Level": reflect.TypeOf(Level(0)),
-	"TU": reflect.TypeOf(TU{}),
+	"TU": reflect.TypeOf(TU{}), "Blob": reflect.TypeOf(Blob{}),
 }
 
 var scalarNames = []string{"bool", "int8", "int16", "int32", "int64", "int", "uint8", "uint16", "uint32", "uint64", "uint",
 	"float32", "float64", "string", "bytes", "time", "MyBool", "MyInt8", "MyInt32", "MyInt64", "MyUint16", "MyUint64",
-	"MyFloat32", "MyFloat64", "MyString", "Color", "Mode", "Level", "TU"}
+	"MyFloat32", "MyFloat64", "MyString", "Color", "Mode", "Level", "TU", "Blob"}
 
 var namedStructs = map[string]reflect.Type{
 	"Inner": reflect.TypeOf(Inner{}), "Pair": reflect.TypeOf(Pair{}), "Deep": reflect.TypeOf(Deep{}),
-	"Misc": reflect.TypeOf(Misc{}), "Opts": reflect.TypeOf(Opts{}),
+	"Misc": reflect.TypeOf(Misc{}), "Opts": reflect.TypeOf(Opts{}), "Tree": reflect.TypeOf(Tree{}),
 }
-var namedStructNames = []string{"Inner", "Pair", "Deep", "Misc", "Opts"}
+var namedStructNames = []string{"Inner", "Pair", "Deep", "Misc", "Opts", "Tree"}
 
 // ---- type descriptions (serialisable: replay files rebuild the reflect.Type from them) ----
 
@@ -218,6 +228,7 @@ type MTy struct {
 	Elem   *MTy
 	Fields []MField
 	RT     reflect.Type
+	Cut    bool // recursive struct type beyond the unfolding depth: never holds a value (generators stop above it)
 }
 type MField struct {
 	Name  string
@@ -231,7 +242,12 @@ var bytesType = reflect.TypeOf([]byte{})
 
 func lowerFirst(s string) string { return strings.ToLower(s[:1]) + s[1:] }
 
-func mtyOf(rt reflect.Type) *MTy {
+// recursion depth to which a self-referencing struct type is unfolded into the (finite) model type
+const unfoldDepth = 3
+
+func mtyOf(rt reflect.Type) *MTy { return mtyOfD(rt, map[reflect.Type]int{}) }
+
+func mtyOfD(rt reflect.Type, seen map[reflect.Type]int) *MTy {
 	if e := enumOf(rt); e != nil {
 		return &MTy{K: "enum", Enum: e, RT: rt}
 	}
@@ -255,11 +271,19 @@ func mtyOf(rt reflect.Type) *MTy {
 	case reflect.String:
 		return &MTy{K: "string", RT: rt}
 	case reflect.Ptr:
-		return &MTy{K: "ptr", Elem: mtyOf(rt.Elem()), RT: rt}
+		return &MTy{K: "ptr", Elem: mtyOfD(rt.Elem(), seen), RT: rt}
 	case reflect.Slice:
-		return &MTy{K: "list", Elem: mtyOf(rt.Elem()), RT: rt}
+		return &MTy{K: "list", Elem: mtyOfD(rt.Elem(), seen), RT: rt}
 	case reflect.Struct:
 		m := &MTy{K: "struct", RT: rt}
+		if rt.Name() != "" {
+			if seen[rt] >= unfoldDepth {
+				m.Cut = true
+				return m
+			}
+			seen[rt]++
+			defer func() { seen[rt]-- }()
+		}
 		for i := 0; i < rt.NumField(); i++ {
 			f := rt.Field(i)
 			tags := strings.Split(f.Tag.Get("graphql"), ",")
@@ -267,7 +291,7 @@ func mtyOf(rt reflect.Type) *MTy {
 			if name == "" {
 				name = lowerFirst(f.Name)
 			}
-			ft := mtyOf(f.Type)
+			ft := mtyOfD(f.Type, seen)
 			for _, t := range tags[1:] {
 				if t == "optional" {
 					ft = &MTy{K: "opt", Elem: ft, RT: f.Type}
